@@ -457,6 +457,13 @@ by rewrite /ant_impact isum_add ?size_dvl // gen_R_mul.
 Qed.
 
 
+Lemma size_run_vs : size vs = size inc -> size (ovs run_l) = size vs.
+Proof.
+move=> sz; have := run_size; have := run_vs; case Ec: cols => [|c0 cs] Hv Hs.
+  by case: run_l Hs.
+by rewrite Hv // size_addc // size_dvl.
+Qed.
+
 (* pairs (simulated column, its result) *)
 Fixpoint pall (R : ccol -> sper -> Prop) (cs : seq ccol) (l : seq sper) : Prop :=
   match cs, l with
